@@ -385,7 +385,7 @@ def check_dispatch(ctx, prog):
             msg = cl.variant(prog, 'NodeSessionMessage', 'MessageReceived', (nm,))
             n0 = len(st.trace)
             name = 'dispatch.%s.%s' % (lab, fname)
-            cex = (lambda lab=lab, fname=fname: (lambda m: fsm.replay_auth(lab, fname[5:], m) if fname.startswith('auth:') else fsm.replay_gate('node' if fname.startswith('node:') else 'control', {'auth': lab, 'msg': fname.split(':', 1)[1]})))()
+            cex = (lambda lab=lab, fname=fname: (lambda m: fsm.replay_dispatch(lab, fname[5:], m) if fname.startswith('auth:') else fsm.replay_gate('node' if fname.startswith('node:') else 'control', {'auth': lab, 'msg': fname.split(':', 1)[1]})))()
             try:
                 st, coro = lc.make_coro(I, st, prog, fn, [Ref(selfc, ()), Opaque('ActorRef', ident='myself'), msg, Ref(sc, (), True)])
                 cc = st.alloc(coro)
@@ -478,7 +478,7 @@ def check_node_server(ctx, prog):
                 listed = sorted(z3.simplify(e.fields[0].t).as_long() - 100 for e in reps[0].fields)
                 listed_some = listed_some or bool(listed)
             lp.record(ctx, name, s, {'lists_exactly_the_authenticated_sessions': kind == 'ready' and listed == sorted(auth), 'listing_changes_nothing': auth_ids(I, s, sc) == set(auth)}, 'C17.node_server',
-                      sample={'authenticated': list(auth), 'listed': listed}, on_cex=lambda m: fsm.replay_gate('sessions', {}))
+                      sample={'authenticated': list(auth), 'listed': listed}, on_cex=lambda m: fsm.replay_sessions())
         # every other message that does not carry authentication: the authenticated set never grows
         for mname, mk_msg in (('ConnectionReady', lambda: cl.variant(prog, 'NodeServerMessage', 'ConnectionReady', (aid(1),))),
                               ('UpdateSession', lambda: cl.variant(prog, 'NodeServerMessage', 'UpdateSession', (aid(1), cl.record(prog, 'NameMessage', 'out/auth.rs', name=Str('peer1'), connection_id=I.mk_int(0, 'u64'),
@@ -508,7 +508,7 @@ def check_node_server(ctx, prog):
                         added += 1 if grown else 0
                     else:
                         claims['authenticated_set_does_not_grow'] = not grown
-                    lp.record(ctx, '%s.path%d' % (name0, k), s, claims, 'C17.node_server', on_cex=lambda m: fsm.replay_gate('sessions', {}))
+                    lp.record(ctx, '%s.path%d' % (name0, k), s, claims, 'C17.node_server', on_cex=lambda m: fsm.replay_sessions())
         ctx.absorb(I)
     ctx.note_witness('C17.node_server.some_session_listed', listed_some)
     ctx.note_witness('C17.node_server.authentication_recorded', added > 0)
